@@ -64,7 +64,7 @@ func c16(c *Ctx) {
 	conds["gzip-never-built"] = neverAllocated(c, "objects.GzipPacked")
 	conds["mode-is-intermediate"] = modeIsIntermediate(c)
 	c.nilTypes("R16.N", fns, 30)
-	n, d, a := c.runCensus("R16.P", fns, map[string]bool{"panic": true, "helper": true, "assert": true, "errpath": true}, conds, "C15/R15.C", "C17/R17.P")
+	n, d, a := c.runCensus("R16.P", fns, map[string]bool{"panic": true, "helper": true, "assert": true, "errpath": true, "make": true}, conds, "C15/R15.C", "C17/R17.P", "C04/R04.P", "C06/R06.P")
 	r.Extra["census_functions"] = len(fns)
 	r.Extra["census_sites"] = n
 	r.Extra["census_discharged"] = d
@@ -235,7 +235,7 @@ func nativeReturnsErrResponseCode(c *Ctx) bool {
 	n := 0
 	for _, b := range f.Blocks {
 		for _, in := range b.Instrs {
-			if ret, ok := in.(*ssa.Return); ok && len(ret.Results) == 1 {
+			if ret, ok := an.AsReturn(in); ok && len(ret.Results) == 1 {
 				n++
 				if !strings.HasPrefix(tr.OriginString(an.RetVal(ret, 0)), "alloc:mtproto.ErrResponseCode") {
 					return false
